@@ -7,6 +7,7 @@ register(PropSpec(
     "C07",
     engines=[EngineSpec("exec", gen_exec.gen_c07, mon_exec.mon_c07, mon_exec.tags_c07, quick_n=200, thorough_n=5000, mask=mon_exec.mask_unmodelled),
              EngineSpec("ledger", gen_ledger.gen_revert, gen_ledger.mon_c07, gen_ledger.tags_ledger, quick_n=150, thorough_n=4000)],
+    facts=["failedEventsCond"],
     rule="exec engine: fee-starved signers (chain admins and users drained to below one fee) submit IBTPs that are processed and then "
          "cannot pay, check-rejected IBTPs, contract calls that error (wrong arity, unknown method, denied caller, governance calls) and "
          "bad transfers; every such block and every run of read-only (view) executions is bracketed by a dump of all committed contract "
